@@ -2,7 +2,10 @@ package vt
 
 import (
 	"encoding/json"
+	"fmt"
+	"os"
 	"testing"
+	"time"
 
 	"pgregory.net/rapid"
 )
@@ -18,9 +21,56 @@ func Run[C any](t *testing.T, property, test string, gen func(*rapid.T) C, check
 	}
 	rapid.Check(t, func(rt *rapid.T) {
 		c := gen(rt)
-		err := check(c)
+		err, hung := guarded(func() error { return check(c) })
+		if hung {
+			// the case never came back: the goroutine stuck in it cannot be
+			// stopped, so neither shrinking nor going on makes sense. Save the
+			// case as it is and leave at once.
+			v := Violationf(property+":hang", "the check of this case did not return within %v (a decoder, parser or call that never comes back)\n%s", Watchdog, BlockedInLibrary())
+			path := SaveFailure(property, test, c, v)
+			Flush()
+			fmt.Printf("VIOLATION-CASE property=%s test=%s class=%s file=%s: %s\n", property, test, v.Class, path, v.Msg)
+			os.Exit(1)
+		}
 		Check(property, test, c, err, rt.Fatalf)
 	})
+}
+
+// Watchdog is the time a single case may take before it is declared hung. The
+// checks bound their own waits (10 to 30 s) and report those as violations of
+// their own; this is the net under everything else, e.g. a decoder which
+// dead-locks. Packages whose cases legitimately take long raise it in TestMain.
+var Watchdog = 120 * time.Second
+
+// guarded runs f in its own goroutine and waits for it at most Watchdog. A
+// panic in f is re-raised in the caller (rapid reports and shrinks it).
+func guarded(f func() error) (err error, hung bool) {
+	type outcome struct {
+		err error
+		p   interface{}
+	}
+	done := make(chan outcome, 1)
+	go func() {
+		var o outcome
+		defer func() {
+			if p := recover(); p != nil {
+				o.p = p
+			}
+			done <- o
+		}()
+		o.err = f()
+	}()
+	timer := time.NewTimer(Watchdog)
+	defer timer.Stop()
+	select {
+	case o := <-done:
+		if o.p != nil {
+			panic(o.p)
+		}
+		return o.err, false
+	case <-timer.C:
+		return nil, true
+	}
 }
 
 // Replay re-executes the case stored in $VERIF_REPLAY through check, without
@@ -36,7 +86,10 @@ func Replay(t *testing.T, tests map[string]func(raw json.RawMessage) error) {
 	if !ok {
 		t.Fatalf("replay file names unknown test %q", f.Test)
 	}
-	err := fn(f.Case)
+	err, hung := guarded(func() error { return fn(f.Case) })
+	if hung {
+		t.Fatalf("REPLAY-FAIL property=%s test=%s class=%s:hang: the check of this case did not return within %v\n%s", f.Property, f.Test, f.Property, Watchdog, BlockedInLibrary())
+	}
 	if err == nil {
 		t.Logf("REPLAY-PASS property=%s test=%s", f.Property, f.Test)
 		return
